@@ -2,6 +2,7 @@ import Martian.Lexer
 import Martian.Regex
 import Martian.LexerId
 import Martian.FormatExp
+import Martian.LexerLRGen
 import Martian.Tokenizer
 import Martian.LexerActions
 import Gen.Facts
@@ -99,7 +100,8 @@ def toFx (t : Martian.Tokenizer.Tok) : Option Martian.FormatExp.Tok :=
     else if n == "NULL" then some .kNull
     else if n == "SELF" then some .kSelf
     else if n == "DEFAULT" then some .kDefault
-    else if n == "INVALID" || n == "INCLUDE_DIRECTIVE" || n == "" then none
+    else if n == "INVALID" || n == "" then none
+    else if n == "INCLUDE_DIRECTIVE" then some (.reserved t.text)
     else if Martian.FormatExp.idTokens.contains n then some (.id t.text)
     else some (.reserved t.text)
 
@@ -116,8 +118,34 @@ def nonAsciiOutsideStrings (src : Bytes) : Bool :=
   raw.2.any (· ≥ 0x80) ||
   raw.1.any fun t => nameOfId t.id != "LITSTRING" && t.text.any (· ≥ 0x80)
 
+/-- the debug line of the real loop for one event, normalised as the hook does -/
+def evStr : Martian.LexerLR.Event → String
+  | .push s => "P" ++ toString s
+  | .lex tok ch => "L" ++ toString tok ++ "/" ++ toString ch
+  | .reduce n s => "R" ++ toString n ++ "@" ++ toString s
+  | .err s tok => "E" ++ toString s ++ "/" ++ toString tok
+  | .pop s => "X" ++ toString s
+  | .discard tok => "D" ++ toString tok
+
 def handle (op : String) (args : List String) : Option String :=
   match op, args with
+  -- scanner + parser driver: the event trace, the result and the error position
+  | "parse", [s, k] => do
+    let b ← bytesOfHex s
+    let fail : Nat → Bool := match k.toNat? with
+      | some n => fun i => i == n
+      | none => fun _ => false
+    let r := Martian.LexerLR.parseSource fail b
+    let evs := " ".intercalate (r.2.map evStr)
+    match r.1 with
+    | .accept => pure (evs ++ " =0")
+    | .actionError => pure (evs ++ " =1")
+    | .syntaxError i =>
+      let p := Martian.LexerLR.posOf b i
+      pure (evs ++ " =1 @" ++ toString p.1 ++ ":" ++ toString p.2)
+    | .panic => pure (evs ++ " PANIC")
+    | .outOfFuel => pure (evs ++ " OUT-OF-FUEL")
+  | "failprods", [] => pure (" ".intercalate (Gen.mmFailProds.map toString))
   -- FormatExp.lexAll (C09's reduced tokenizer) vs the full tokenizer model
   | "fxcmp", [s] => do
     let b ← bytesOfHex s
@@ -130,6 +158,12 @@ def handle (op : String) (args : List String) : Option String :=
     let b ← bytesOfHex s
     pure (optTok (matchId b))
   -- every rune in [0x80, 0x10FFFF] the model takes for white space
+  -- the productions whose semantic action can abort the parse (regenerated fact)
+  -- mmLast mmPrivate mmFlag, number of states and of productions (regenerated facts)
+  | "lrconsts", [] =>
+    pure (s!"{Gen.mmLast} {Gen.mmPrivate} {Gen.mmFlag} " ++
+      toString (Gen.mmPact.foldl (fun a l => a + l.length) 0) ++ " " ++
+      toString (Gen.mmR1.foldl (fun a l => a + l.length) 0))
   | "unispaces", [] =>
     pure (" ".intercalate (((List.range 0x110000).filter fun r => r ≥ 0x80 && Martian.Tokenizer.isUniSpace r).map
       fun r => String.ofList (Nat.toDigits 16 r)))
